@@ -169,8 +169,8 @@ ORDINARY = {"Fuzzy": {"rho": 0.5, "alpha": 1e-3, "beta": 0.5}, "ART1": {"rho": 0
 BOUNDARY = {"Fuzzy": {"rho": [0.0, 1.0], "alpha": [0.0], "beta": [0.0, 1.0]},
             "ART1": {"rho": [0.0, 1.0], "L": [1.0, float("inf")]},
             "ART2A": {"rho": [0.0, 1.0], "alpha": [0.0], "beta": [0.0, 1.0]},
-            "Hyper": {"rho": [0.0, 1.0], "alpha": [0.0], "beta": [0.0, 1.0], "r_hat": [0.0, -1.0]},
-            "Ellip": {"rho": [0.0, 1.0], "alpha": [0.0, 1.0], "beta": [0.0, 1.0], "mu": [1.0, 0.0], "r_hat": [0.0, -1.0]},
+            "Hyper": {"rho": [0.0, 1.0], "alpha": [0.0], "beta": [0.0, 1.0], "r_hat": [0.0, -1.0, float("inf")]},
+            "Ellip": {"rho": [0.0, 1.0], "alpha": [0.0, 1.0], "beta": [0.0, 1.0], "mu": [1.0, 0.0], "r_hat": [0.0, -1.0, float("inf")]},
             "Gauss": {"rho": [0.0, 1.0], "alpha": [0.0], "sigma_init": ["zero-entry", "negative-entry"]},
             "Bayes": {"rho": [0.0], "cov_init": ["zeros", "singular", "negative-definite"]},
             "Quad": {"rho": [0.0, 1.0], "s_init": [0.0, -1.0], "lr_b": [0.0, 1.0], "lr_w": [0.0, 1.0], "lr_s": [0.0, 1.0]},
